@@ -1486,7 +1486,7 @@ def run_twin(unit, prefix=None):
     env = dict(os.environ, CARGO_NET_OFFLINE="true", CARGO_TARGET_DIR=os.path.join(WORK, "twin-target"))
     # the unchanged bodies are loop-free; `--default-unwind 8` only matters if a changed body introduces a loop, and then an
     # "unwinding assertion" failure is reported as UNDECIDED, never as a violation
-    cmd = ["cargo", "kani", "-j", str(os.cpu_count() or 8), "--output-format=terse", "--default-unwind", "8"] + (["--harness", prefix] if prefix else [])
+    cmd = ["cargo", "kani", "-Z", "function-contracts", "-Z", "stubbing", "-j", str(os.cpu_count() or 8), "--output-format=terse", "--default-unwind", "8"] + (["--harness", prefix] if prefix else [])
     t0 = time.time()
     tmo = int(os.environ.get("VERIF_TWIN_TIMEOUT", "600"))
     try:
